@@ -15,7 +15,7 @@ import numpy as np
 
 from symx import core
 from symx.core import SymReal, SymBool, s_and, s_or, s_not, s_implies
-from symx.timeproxy import (SymTime, sym_time, sym_seconds, const_time, LO_DEFAULT, HI_DEFAULT,
+from symx.timeproxy import (SymTime, sym_time, sym_seconds, sym_latency, const_time, LO_DEFAULT, HI_DEFAULT,
                             dt_to_us, US)
 
 from tradingenv.contracts import ETF, Cash, AbstractContract
@@ -32,8 +32,8 @@ from tradingenv.broker.broker import EndOfEpisodeError
 ASSUMPTIONS = [
     "timestamps are integer microseconds (the exact value domain of datetime) in [2000-01-01, 2100-01-01)",
     "grid points strictly increasing (unsorted / duplicated grid input are separate concrete-permutation configs)",
-    "latency is a real number of seconds with 0 <= latency < minimum grid gap (the rejected case latency >= gap "
-    "is a separate config)",
+    "latency is a whole number of microseconds with 0 <= latency < minimum grid gap (w.l.o.g.: it is only ever "
+    "compared with differences of datetimes, which are whole microseconds)",
     "bar-shaped data: one quote per traded contract stamped exactly on every grid point; the M extra events "
     "have unconstrained timestamps",
     "prices and actions are concrete and pairwise distinct unless stated otherwise",
@@ -118,7 +118,7 @@ class Episode:
         if lat == "zero":
             self.L = 0
         elif lat == "sym":
-            self.L = c.real("L", 0, 86400 * 400)
+            self.L = sym_latency(c, "L")
             for i in range(N - 1):
                 c.assume(self.L < (self.T[i + 1] - self.T[i]).total_seconds())
         else:
